@@ -18,17 +18,20 @@
      newton8 d c v r  the eight block equations of the full system (written out in C13_newton8_written_out).
    Factorisation success is stated for the first regularize_and_factorize(false) after init (LDL object as the symbolic phase
    left it): kkt_symbolic K = Ok st0, kkt_factorize K st0 = Ok (true, st).
+   The same for KKT_EQ_ELIMINATED, KKT_INEQ_ELIMINATED, KKT_ALL_ELIMINATED (KKTSparseSolveElimProofs.v): condensed right-hand
+   side, reduced solve, recovery of delta_y / delta_z, for every valid ordering, with the hypotheses  denotes N o K (Keq ..) /
+   (Kineq ..) / (a_Kred ..)  the assembly theorems of Properties_C13_eqineq.v / Properties_C13_elim.v provide.
+   Factorisation success from a CARRIED state (a later regularize_and_factorize(false), e.g. after update_scalings): the
+   *_refactor theorems; reusable K st = the LDL object holds the index part of the symbolic phase for the pattern of K, work
+   arrays of the right sizes, y cleared (established by the symbolic phase, kept by every successful factorisation, independent
+   of the values of K: C13_sparse_reusable).  Not covered: the state a FAILED factorisation (zero pivot) leaves.
    NOT proved here (see the report of the stage for what is compared instead):
-     * KKT_EQ_ELIMINATED / KKT_INEQ_ELIMINATED / KKT_ALL_ELIMINATED: the algebra lemmas alg_eq / alg_ineq / alg_all
-       (KKTSparseSolveProofs.v: the reduced rows imply the KKT_FULL rows, hence the full system) are proved, the composition with
-       kkt_solve MEq / MIneq / MAll (condensed right-hand side, recovery of delta_y / delta_z) is NOT: no theorem for these modes;
-     * a later factorisation that starts from the work arrays of an earlier one (flag, L_nnz, y of LDLSparse.v): not proved equal
-       to a fresh one (the stage compares histories with repeated and failed factorisations);
-     * the absence of repeated row indices in a column of the stored matrix (nodup_cols) is a hypothesis; for the permuted
-       ordering also upper_only of the stored matrix (the _partial theorem);
-     * iterative refinement; equality with the dense model's kkt_solve (C13_sparse_solve_eq_dense): not stated. *)
-From PIQP Require Import Base CSC LDLSparse LinAlg KKTProofs LDLValuesFinalProofs KKTSparseFull KKTSparseFullProofs KKTSparseFullPerm KKTSparseFullPermProofs
-  KKTSparseSolve KKTSparseSolveProofs.
+     * the absence of repeated row indices in a column of the stored matrix (nodup_cols) is a hypothesis of the theorems on
+       the assembly states (for KKT_FULL under an arbitrary ordering: of the UN-permuted matrix only, C13_sparse_solve_exact_full_perm);
+     * iterative refinement. *)
+From PIQP Require Import Base CSC CSCProofs LDLSparse LinAlg KKTProofs LDLValuesFinalProofs KKTSparseFull KKTSparseFullProofs KKTSparseFullPerm KKTSparseFullPermProofs
+  KKTSparseAll KKTSparseAllProofs KKTSparseEq KKTSparseIneq KKTSparseEqProofs KKTSparseIneqProofs
+  KKTSparseSolve KKTSparseSolveProofs KKTSparseSolveElimProofs KKTSparseSolvePermProofs KKTSparseRefactorProofs.
 Local Open Scope nat_scope.
 
 (* ===== KKT_FULL: solve is exact (any valid ordering) ===== *)
@@ -127,15 +130,267 @@ Proof.
 Qed.
 Print Assumptions C13_sparse_solve_exact_full_perm_partial.
 
-(* ===== the elimination algebra of the three eliminated modes (what remains to be composed with kkt_solve MEq / MIneq / MAll) ===== *)
-Theorem C13_sparse_elim_algebra_partial : forall (Y : L2sys) (dx dy dz : nat -> Qc),
+(* ===== ... for EVERY valid ordering (perm a permutation of [0, N)): upper triangularity and strictly increasing columns of the
+   permuted stored matrix follow from C14_permute_sym_sorted; the only pattern hypothesis left is on the UN-permuted assembled
+   matrix (no row index twice in a column); the ordering object is the one ordering_init builds ===== *)
+Theorem C13_sparse_solve_exact_full_perm : forall (d : sdata) (c : scal) (perm : list nat) (kid kp : skkt)
+    (st0 st : ldl_i * ldl_v) (r : step8),
+  wf_sdata d -> upper_only (sd_P d) = true -> fresh_form d c kid -> perm_img d perm kid kp ->
+  perm_wf perm -> length perm = sd_n d + sd_p d + sd_m d -> nodup_cols (fk_PKPt d kid) ->
+  solve_ok d c -> rhs_ok d r ->
+  kkt_symbolic (fk_PKPt d kp) = Ok st0 -> full_factorize d kp st0 = Ok (true, st) ->
+  exists o v, ordering_init perm = Ok o /\ oPinv o = fk_pinv kp /\
+    full_solve d kp o st r = Ok v /\ step_ok d v /\ newton8 d c v r /\
+    full_multiply d kp v = Ok (mkstep8 (t_x r) (t_y r) (t_z r) (head (sd_nlb d) (t_zlb r)) (head (sd_nub d) (t_zub r))
+                                       (t_s r) (head (sd_nlb d) (t_slb r)) (head (sd_nub d) (t_sub r))).
+Proof.
+  intros d c perm kid kp st0 st r Hwf Hup Hf Hp Hpw Lp Hnd Hso Hro E0 E1.
+  destruct (full_perm_denotes_solve d c perm kid kp Hwf Hup Hf Hp Hpw Lp Hnd) as (o & Eo & EP & Epi & Hord & Hden).
+  assert (Esc : scal_of kp = c).
+  { destruct Hp as (o' & Cpos & a2c & _ & _ & _ & HS). destruct HS as (_ & _ & _ & _ & _ & _ & _ & _ & Es & _).
+    rewrite Es. destruct Hf as (_ & E & _). exact E. }
+  unfold full_solve, full_multiply, full_factorize, full_view in *. cbn [sv_sc sv_K] in *. rewrite Esc.
+  destruct (C13_sparse_solve_exact_full d c o _ st0 st r Hso Hro Hord Hden E0 E1) as (v & Ev & Hv & Hn).
+  exists o, v. split; [exact Eo|]. split; [exact Epi|]. split; [exact Ev|]. split; [exact Hv|]. split; [exact Hn|].
+  apply multiply_of_newton8; auto.
+  destruct Hv as (V1 & V2 & V3 & V4 & V5 & V6 & V7 & V8). unfold rhs_ok. repeat split; auto; lia.
+Qed.
+Print Assumptions C13_sparse_solve_exact_full_perm.
+
+(* ===== the elimination algebra behind the three eliminated modes: the reduced rows imply the KKT_FULL rows ===== *)
+Theorem C13_sparse_elim_algebra : forall (Y : L2sys) (dx dy dz : nat -> Qc),
   (y_delta Y <> 0%Qc -> (forall l, l < y_p Y -> dy l = a_dy Y dx l) -> eq_rows Y dx dz -> full_rows Y dx dy dz) /\
   ((forall l, l < y_m Y -> (y_s Y l * y_zinv Y l + y_delta Y)%Qc <> 0%Qc) ->
    (forall l, l < y_m Y -> dz l = a_dz Y dx l) -> ineq_rows Y dx dy -> full_rows Y dx dy dz) /\
   (y_delta Y <> 0%Qc -> (forall l, l < y_m Y -> (y_s Y l * y_zinv Y l + y_delta Y)%Qc <> 0%Qc) ->
    (forall l, l < y_p Y -> dy l = a_dy Y dx l) -> (forall l, l < y_m Y -> dz l = a_dz Y dx l) -> all_rows Y dx -> full_rows Y dx dy dz).
 Proof. intros Y dx dy dz. split; [apply alg_eq|split; [apply alg_ineq|apply alg_all]]. Qed.
-Print Assumptions C13_sparse_elim_algebra_partial.
+Print Assumptions C13_sparse_elim_algebra.
+
+
+(* ===== KKT_EQ_ELIMINATED: solve is exact (any valid ordering) ===== *)
+Theorem C13_sparse_solve_exact_eq : forall (d : sdata) (c : scal) (o : ordering) (K : csc F) (st0 st : ldl_i * ldl_v) (r : step8),
+  wf_sdata d -> solve_ok d c -> sc_delta c <> 0%Qc -> rhs_ok d r ->
+  ord_ok (sd_n d + sd_m d) o -> denotes (sd_n d + sd_m d) o K (Keq (sys_sparse d c)) ->
+  kkt_symbolic K = Ok st0 -> kkt_factorize K st0 = Ok (true, st) ->
+  exists v, kkt_solve MEq d c o st r = Ok v /\ step_ok d v /\ newton8 d c v r.
+Proof.
+  intros d c o K st0 st r Hwf Hso Hd Hro Ho Hden E0 E1.
+  apply (eq_solve_exact d c o K st r Hwf Hso Hd Hro Ho Hden).
+  destruct Hden as (_ & Hr & Hc & _). cbn [mode_N]. rewrite <- Hr. apply (factor_first K st0 st E0 E1). lia.
+Qed.
+Print Assumptions C13_sparse_solve_exact_eq.
+
+Theorem C13_sparse_multiply_solve_id_eq : forall (d : sdata) (c : scal) (o : ordering) (K : csc F) (st0 st : ldl_i * ldl_v) (r : step8),
+  wf_sdata d -> upper_only (sd_P d) = true -> solve_ok d c -> sc_delta c <> 0%Qc -> rhs_ok d r ->
+  ord_ok (sd_n d + sd_m d) o -> denotes (sd_n d + sd_m d) o K (Keq (sys_sparse d c)) ->
+  kkt_symbolic K = Ok st0 -> kkt_factorize K st0 = Ok (true, st) ->
+  exists v, kkt_solve MEq d c o st r = Ok v /\
+    kkt_multiply d c v = Ok (mkstep8 (t_x r) (t_y r) (t_z r) (head (sd_nlb d) (t_zlb r)) (head (sd_nub d) (t_zub r))
+                                     (t_s r) (head (sd_nlb d) (t_slb r)) (head (sd_nub d) (t_sub r))).
+Proof.
+  intros d c o K st0 st r Hwf Hup Hso Hd Hro Ho Hden E0 E1.
+  destruct (C13_sparse_solve_exact_eq d c o K st0 st r Hwf Hso Hd Hro Ho Hden E0 E1) as (v & Ev & Hv & Hn).
+  exists v. split; [exact Ev|]. apply multiply_of_newton8; auto.
+  destruct Hv as (V1 & V2 & V3 & V4 & V5 & V6 & V7 & V8). unfold rhs_ok. repeat split; auto; lia.
+Qed.
+Print Assumptions C13_sparse_multiply_solve_id_eq.
+
+(* on the assembly state in canonical form (eqF of the assembly theorems; identity ordering) *)
+Theorem C13_sparse_solve_exact_eq_form : forall (d : sdata) (X : csc F) (c : scal) (k : ekkt) (st0 st : ldl_i * ldl_v) (r : step8),
+  elim_data_ok d (sd_GT d) -> eqF d X c k -> nodup_cols (sv_K (eq_view d k)) ->
+  solve_ok d c -> sc_delta c <> 0%Qc -> rhs_ok d r ->
+  kkt_symbolic (sv_K (eq_view d k)) = Ok st0 -> eq_factorize d k st0 = Ok (true, st) ->
+  exists v, eq_solve d k (mkord (seq 0 (sd_n d + sd_m d)) (ek_pinv k)) st r = Ok v /\ step_ok d v /\ newton8 d c v r /\
+    eq_multiply d k v = Ok (mkstep8 (t_x r) (t_y r) (t_z r) (head (sd_nlb d) (t_zlb r)) (head (sd_nub d) (t_zub r))
+                                      (t_s r) (head (sd_nlb d) (t_slb r)) (head (sd_nub d) (t_sub r))).
+Proof.
+  intros d X c k st0 st r Hok Hf Hnd Hso Hd Hro E0 E1.
+  pose proof Hok as (Hwf & Hup & _). destruct (eq_form_denotes d Hok X c k Hf) as (W & U & _ & G).
+  destruct (eqF_view d X c k Hf) as (Esc & Epi).
+  unfold eq_solve, eq_multiply, eq_factorize, eq_view in *. cbn [sv_sc sv_K] in *. rewrite Esc, Epi.
+  change (mkord (seq 0 (sd_n d + sd_m d)) (seq 0 (sd_n d + sd_m d))) with (id_ord (sd_n d + sd_m d)).
+  assert (Hden : denotes (sd_n d + sd_m d) (id_ord (sd_n d + sd_m d)) _ (Keq (sys_sparse d c))) by (apply (denotes_id _ _ _ W eq_refl eq_refl U Hnd G)).
+  destruct (C13_sparse_solve_exact_eq d c _ _ st0 st r Hwf Hso Hd Hro (id_ord_ok _) Hden E0 E1) as (v & Ev & Hv & Hn).
+  exists v. split; [exact Ev|]. split; [exact Hv|]. split; [exact Hn|]. apply multiply_of_newton8; auto.
+  destruct Hv as (V1 & V2 & V3 & V4 & V5 & V6 & V7 & V8). unfold rhs_ok. repeat split; auto; lia.
+Qed.
+Print Assumptions C13_sparse_solve_exact_eq_form.
+
+(* ===== KKT_INEQ_ELIMINATED: solve is exact (any valid ordering) ===== *)
+Theorem C13_sparse_solve_exact_ineq : forall (d : sdata) (c : scal) (o : ordering) (K : csc F) (st0 st : ldl_i * ldl_v) (r : step8),
+  wf_sdata d -> solve_ok d c -> rhs_ok d r ->
+  ord_ok (sd_n d + sd_p d) o -> denotes (sd_n d + sd_p d) o K (Kineq (sys_sparse d c)) ->
+  kkt_symbolic K = Ok st0 -> kkt_factorize K st0 = Ok (true, st) ->
+  exists v, kkt_solve MIneq d c o st r = Ok v /\ step_ok d v /\ newton8 d c v r.
+Proof.
+  intros d c o K st0 st r Hwf Hso Hro Ho Hden E0 E1.
+  apply (ineq_solve_exact d c o K st r Hwf Hso Hro Ho Hden).
+  destruct Hden as (_ & Hr & Hc & _). cbn [mode_N]. rewrite <- Hr. apply (factor_first K st0 st E0 E1). lia.
+Qed.
+Print Assumptions C13_sparse_solve_exact_ineq.
+
+Theorem C13_sparse_multiply_solve_id_ineq : forall (d : sdata) (c : scal) (o : ordering) (K : csc F) (st0 st : ldl_i * ldl_v) (r : step8),
+  wf_sdata d -> upper_only (sd_P d) = true -> solve_ok d c -> rhs_ok d r ->
+  ord_ok (sd_n d + sd_p d) o -> denotes (sd_n d + sd_p d) o K (Kineq (sys_sparse d c)) ->
+  kkt_symbolic K = Ok st0 -> kkt_factorize K st0 = Ok (true, st) ->
+  exists v, kkt_solve MIneq d c o st r = Ok v /\
+    kkt_multiply d c v = Ok (mkstep8 (t_x r) (t_y r) (t_z r) (head (sd_nlb d) (t_zlb r)) (head (sd_nub d) (t_zub r))
+                                     (t_s r) (head (sd_nlb d) (t_slb r)) (head (sd_nub d) (t_sub r))).
+Proof.
+  intros d c o K st0 st r Hwf Hup Hso Hro Ho Hden E0 E1.
+  destruct (C13_sparse_solve_exact_ineq d c o K st0 st r Hwf Hso Hro Ho Hden E0 E1) as (v & Ev & Hv & Hn).
+  exists v. split; [exact Ev|]. apply multiply_of_newton8; auto.
+  destruct Hv as (V1 & V2 & V3 & V4 & V5 & V6 & V7 & V8). unfold rhs_ok. repeat split; auto; lia.
+Qed.
+Print Assumptions C13_sparse_multiply_solve_id_ineq.
+
+(* on the assembly state in canonical form (ineqF of the assembly theorems; identity ordering) *)
+Theorem C13_sparse_solve_exact_ineq_form : forall (d : sdata) (X : csc F) (c : scal) (k : ekkt) (st0 st : ldl_i * ldl_v) (r : step8),
+  elim_data_ok d (sd_AT d) -> ineqF d X c k -> nodup_cols (sv_K (ineq_view d k)) ->
+  solve_ok d c -> rhs_ok d r ->
+  kkt_symbolic (sv_K (ineq_view d k)) = Ok st0 -> ineq_factorize d k st0 = Ok (true, st) ->
+  exists v, ineq_solve d k (mkord (seq 0 (sd_n d + sd_p d)) (ek_pinv k)) st r = Ok v /\ step_ok d v /\ newton8 d c v r /\
+    ineq_multiply d k v = Ok (mkstep8 (t_x r) (t_y r) (t_z r) (head (sd_nlb d) (t_zlb r)) (head (sd_nub d) (t_zub r))
+                                      (t_s r) (head (sd_nlb d) (t_slb r)) (head (sd_nub d) (t_sub r))).
+Proof.
+  intros d X c k st0 st r Hok Hf Hnd Hso Hro E0 E1.
+  pose proof Hok as (Hwf & Hup & _). destruct (ineq_form_denotes d Hok X c k Hf) as (W & U & _ & G).
+  destruct (ineqF_view d X c k Hf) as (Esc & Epi).
+  unfold ineq_solve, ineq_multiply, ineq_factorize, ineq_view in *. cbn [sv_sc sv_K] in *. rewrite Esc, Epi.
+  change (mkord (seq 0 (sd_n d + sd_p d)) (seq 0 (sd_n d + sd_p d))) with (id_ord (sd_n d + sd_p d)).
+  assert (Hden : denotes (sd_n d + sd_p d) (id_ord (sd_n d + sd_p d)) _ (Kineq (sys_sparse d c))) by (apply (denotes_id _ _ _ W eq_refl eq_refl U Hnd G)).
+  destruct (C13_sparse_solve_exact_ineq d c _ _ st0 st r Hwf Hso Hro (id_ord_ok _) Hden E0 E1) as (v & Ev & Hv & Hn).
+  exists v. split; [exact Ev|]. split; [exact Hv|]. split; [exact Hn|]. apply multiply_of_newton8; auto.
+  destruct Hv as (V1 & V2 & V3 & V4 & V5 & V6 & V7 & V8). unfold rhs_ok. repeat split; auto; lia.
+Qed.
+Print Assumptions C13_sparse_solve_exact_ineq_form.
+
+(* ===== KKT_ALL_ELIMINATED: solve is exact (any valid ordering) ===== *)
+Theorem C13_sparse_solve_exact_all : forall (d : sdata) (c : scal) (o : ordering) (K : csc F) (st0 st : ldl_i * ldl_v) (r : step8),
+  wf_sdata d -> solve_ok d c -> sc_delta c <> 0%Qc -> rhs_ok d r ->
+  ord_ok (sd_n d) o -> denotes (sd_n d) o K (a_Kred (sys_sparse d c)) ->
+  kkt_symbolic K = Ok st0 -> kkt_factorize K st0 = Ok (true, st) ->
+  exists v, kkt_solve MAll d c o st r = Ok v /\ step_ok d v /\ newton8 d c v r.
+Proof.
+  intros d c o K st0 st r Hwf Hso Hd Hro Ho Hden E0 E1.
+  apply (all_solve_exact d c o K st r Hwf Hso Hd Hro Ho Hden).
+  destruct Hden as (_ & Hr & Hc & _). cbn [mode_N]. rewrite <- Hr. apply (factor_first K st0 st E0 E1). lia.
+Qed.
+Print Assumptions C13_sparse_solve_exact_all.
+
+Theorem C13_sparse_multiply_solve_id_all : forall (d : sdata) (c : scal) (o : ordering) (K : csc F) (st0 st : ldl_i * ldl_v) (r : step8),
+  wf_sdata d -> upper_only (sd_P d) = true -> solve_ok d c -> sc_delta c <> 0%Qc -> rhs_ok d r ->
+  ord_ok (sd_n d) o -> denotes (sd_n d) o K (a_Kred (sys_sparse d c)) ->
+  kkt_symbolic K = Ok st0 -> kkt_factorize K st0 = Ok (true, st) ->
+  exists v, kkt_solve MAll d c o st r = Ok v /\
+    kkt_multiply d c v = Ok (mkstep8 (t_x r) (t_y r) (t_z r) (head (sd_nlb d) (t_zlb r)) (head (sd_nub d) (t_zub r))
+                                     (t_s r) (head (sd_nlb d) (t_slb r)) (head (sd_nub d) (t_sub r))).
+Proof.
+  intros d c o K st0 st r Hwf Hup Hso Hd Hro Ho Hden E0 E1.
+  destruct (C13_sparse_solve_exact_all d c o K st0 st r Hwf Hso Hd Hro Ho Hden E0 E1) as (v & Ev & Hv & Hn).
+  exists v. split; [exact Ev|]. apply multiply_of_newton8; auto.
+  destruct Hv as (V1 & V2 & V3 & V4 & V5 & V6 & V7 & V8). unfold rhs_ok. repeat split; auto; lia.
+Qed.
+Print Assumptions C13_sparse_multiply_solve_id_all.
+
+(* on the assembly state in canonical form (all_form of the assembly theorems; identity ordering) *)
+Theorem C13_sparse_solve_exact_all_form : forall (d : sdata) (c : scal) (k : akkt) (st0 st : ldl_i * ldl_v) (r : step8),
+  wf_sdata d /\ upper_only (sd_P d) = true -> all_form d c k -> nodup_cols (sv_K (all_view d k)) ->
+  solve_ok d c -> sc_delta c <> 0%Qc -> rhs_ok d r ->
+  kkt_symbolic (sv_K (all_view d k)) = Ok st0 -> all_factorize d k st0 = Ok (true, st) ->
+  exists v, all_solve d k (mkord (seq 0 (sd_n d)) (ak_pinv k)) st r = Ok v /\ step_ok d v /\ newton8 d c v r /\
+    all_multiply d k v = Ok (mkstep8 (t_x r) (t_y r) (t_z r) (head (sd_nlb d) (t_zlb r)) (head (sd_nub d) (t_zub r))
+                                      (t_s r) (head (sd_nlb d) (t_slb r)) (head (sd_nub d) (t_sub r))).
+Proof.
+  intros d c k st0 st r Hok Hf Hnd Hso Hd Hro E0 E1.
+  destruct Hok as (Hwf & Hup). destruct (all_form_denotes d Hwf Hup c k Hf) as (W & U & _ & G).
+  destruct (all_form_view d c k Hf) as (Esc & Epi).
+  unfold all_solve, all_multiply, all_factorize, all_view in *. cbn [sv_sc sv_K] in *. rewrite Esc, Epi.
+  change (mkord (seq 0 (sd_n d)) (seq 0 (sd_n d))) with (id_ord (sd_n d)).
+  assert (Hden : denotes (sd_n d) (id_ord (sd_n d)) _ (a_Kred (sys_sparse d c))) by (apply (denotes_id _ _ _ W eq_refl eq_refl U Hnd G)).
+  destruct (C13_sparse_solve_exact_all d c _ _ st0 st r Hwf Hso Hd Hro (id_ord_ok _) Hden E0 E1) as (v & Ev & Hv & Hn).
+  exists v. split; [exact Ev|]. split; [exact Hv|]. split; [exact Hn|]. apply multiply_of_newton8; auto.
+  destruct Hv as (V1 & V2 & V3 & V4 & V5 & V6 & V7 & V8). unfold rhs_ok. repeat split; auto; lia.
+Qed.
+Print Assumptions C13_sparse_solve_exact_all_form.
+
+(* ===== a later factorisation, started from the state an earlier successful one (or the symbolic phase) left in the LDL object ===== *)
+Theorem C13_sparse_refactor : forall (K : csc F) (st0 st : ldl_i * ldl_v),
+  wf_csc K = true -> ncols K = nrows K -> upper_only K = true -> nodup_cols K ->
+  reusable K st0 -> kkt_factorize K st0 = Ok (true, st) ->
+  ldl_solves K st /\ reusable K st.
+Proof.
+  intros K st0 st W Hsq U Hnd Hre E1. apply (refactor_solves K st0 st W Hsq U Hnd Hre).
+  unfold kkt_factorize in E1. destruct (numeric K st0) as [[r0 st']|]; cbn [bind] in E1; [|discriminate].
+  inversion E1 as [[Hr Hst]]. apply Nat.eqb_eq in Hr. subst. now rewrite Hsq.
+Qed.
+Print Assumptions C13_sparse_refactor.
+
+(* the symbolic phase at the end of init establishes it; it depends on K only through size and pattern, which update_scalings /
+   update_data never change *)
+Theorem C13_sparse_reusable : forall (K K' : csc F) (st0 : ldl_i * ldl_v),
+  wf_csc K = true -> ncols K = nrows K -> upper_only K = true -> kkt_symbolic K = Ok st0 ->
+  reusable K st0 /\
+  (forall st, reusable K st -> nrows K' = nrows K -> colptr K' = colptr K -> rowind K' = rowind K -> reusable K' st).
+Proof. intros K K' st0 W Hsq U E. split; [now apply symbolic_reusable|]. intros st Hre E1 E2 E3. now apply (reusable_pattern K K'). Qed.
+Print Assumptions C13_sparse_reusable.
+
+Theorem C13_sparse_solve_exact_full_refactor : forall (d : sdata) (c : scal) (o : ordering) (K : csc F) (st0 st : ldl_i * ldl_v) (r : step8),
+  solve_ok d c -> rhs_ok d r ->
+  ord_ok (sd_n d + sd_p d + sd_m d) o -> denotes (sd_n d + sd_p d + sd_m d) o K (Kfull (sys_sparse d c)) ->
+  reusable K st0 -> kkt_factorize K st0 = Ok (true, st) ->
+  exists v, kkt_solve MFull d c o st r = Ok v /\ step_ok d v /\ newton8 d c v r /\ reusable K st.
+Proof.
+  intros d c o K st0 st r Hso Hro Ho Hden Hre E1.
+  pose proof Hden as (W & Hr & Hc & U & Hnd & _).
+  destruct (C13_sparse_refactor K st0 st W ltac:(lia) U Hnd Hre E1) as (Hs & Hre').
+  destruct (full_solve_exact_s d c o K st r Hso Hro Ho Hden Hs) as (v & Ev & Hv & Hn).
+  exists v. auto.
+Qed.
+Print Assumptions C13_sparse_solve_exact_full_refactor.
+
+Theorem C13_sparse_solve_exact_eq_refactor : forall (d : sdata) (c : scal) (o : ordering) (K : csc F) (st0 st : ldl_i * ldl_v) (r : step8),
+  wf_sdata d -> solve_ok d c -> sc_delta c <> 0%Qc -> rhs_ok d r ->
+  ord_ok (sd_n d + sd_m d) o -> denotes (sd_n d + sd_m d) o K (Keq (sys_sparse d c)) ->
+  reusable K st0 -> kkt_factorize K st0 = Ok (true, st) ->
+  exists v, kkt_solve MEq d c o st r = Ok v /\ step_ok d v /\ newton8 d c v r /\ reusable K st.
+Proof.
+  intros d c o K st0 st r Hwf Hso Hd Hro Ho Hden Hre E1.
+  pose proof Hden as (W & Hr & Hc & U & Hnd & _).
+  destruct (C13_sparse_refactor K st0 st W ltac:(lia) U Hnd Hre E1) as (Hs & Hre').
+  destruct (eq_solve_exact_s d c o K st r Hwf Hso Hd Hro Ho Hden Hs) as (v & Ev & Hv & Hn).
+  exists v. auto.
+Qed.
+Print Assumptions C13_sparse_solve_exact_eq_refactor.
+
+Theorem C13_sparse_solve_exact_ineq_refactor : forall (d : sdata) (c : scal) (o : ordering) (K : csc F) (st0 st : ldl_i * ldl_v) (r : step8),
+  wf_sdata d -> solve_ok d c -> rhs_ok d r ->
+  ord_ok (sd_n d + sd_p d) o -> denotes (sd_n d + sd_p d) o K (Kineq (sys_sparse d c)) ->
+  reusable K st0 -> kkt_factorize K st0 = Ok (true, st) ->
+  exists v, kkt_solve MIneq d c o st r = Ok v /\ step_ok d v /\ newton8 d c v r /\ reusable K st.
+Proof.
+  intros d c o K st0 st r Hwf Hso Hro Ho Hden Hre E1.
+  pose proof Hden as (W & Hr & Hc & U & Hnd & _).
+  destruct (C13_sparse_refactor K st0 st W ltac:(lia) U Hnd Hre E1) as (Hs & Hre').
+  destruct (ineq_solve_exact_s d c o K st r Hwf Hso Hro Ho Hden Hs) as (v & Ev & Hv & Hn).
+  exists v. auto.
+Qed.
+Print Assumptions C13_sparse_solve_exact_ineq_refactor.
+
+Theorem C13_sparse_solve_exact_all_refactor : forall (d : sdata) (c : scal) (o : ordering) (K : csc F) (st0 st : ldl_i * ldl_v) (r : step8),
+  wf_sdata d -> solve_ok d c -> sc_delta c <> 0%Qc -> rhs_ok d r ->
+  ord_ok (sd_n d) o -> denotes (sd_n d) o K (a_Kred (sys_sparse d c)) ->
+  reusable K st0 -> kkt_factorize K st0 = Ok (true, st) ->
+  exists v, kkt_solve MAll d c o st r = Ok v /\ step_ok d v /\ newton8 d c v r /\ reusable K st.
+Proof.
+  intros d c o K st0 st r Hwf Hso Hd Hro Ho Hden Hre E1.
+  pose proof Hden as (W & Hr & Hc & U & Hnd & _).
+  destruct (C13_sparse_refactor K st0 st W ltac:(lia) U Hnd Hre E1) as (Hs & Hre').
+  destruct (all_solve_exact_s d c o K st r Hwf Hso Hd Hro Ho Hden Hs) as (v & Ev & Hv & Hn).
+  exists v. auto.
+Qed.
+Print Assumptions C13_sparse_solve_exact_all_refactor.
 
 (* ===== non-vacuity: n = 3, p = 1, m = 2, one lower and two upper bounds, non-unit box scalings and scalings ===== *)
 Local Open Scope Qc_scope.
@@ -198,6 +453,101 @@ Example exs_run :
       end
     | Err _ => false
     end
+  | Err _ => false
+  end = true.
+Proof. vm_compute. reflexivity. Qed.
+
+(* the eliminated modes on the same instance: init, update_scalings with the scalings of exs_c (z given un-inverted), first
+   factorisation, solve, and multiply (solve rhs) = rhs; the scalings the state then stores are exs_c *)
+Definition exs_check (sc : scal) (K : csc F) (pinv : list nat) (md : kmode) : bool :=
+  nodup_colsb K &&
+  match kkt_symbolic K with
+  | Ok st0 =>
+    match kkt_factorize K st0 with
+    | Ok (true, st) =>
+      match kkt_solve md exs_d sc (mkord (seq 0 (mode_N md exs_d)) pinv) st exs_r with
+      | Ok v =>
+        forallb (fun w => negb (qeqb (nth 0 w 0) 0)) [t_x v; t_y v; t_z v; t_zlb v; t_zub v; t_s v; t_slb v; t_sub v] &&
+        match kkt_multiply exs_d sc v with
+        | Ok w => veqb (t_x w) (t_x exs_r) && veqb (t_y w) (t_y exs_r) && veqb (t_z w) (t_z exs_r) && veqb (t_zlb w) (t_zlb exs_r) &&
+                  veqb (t_zub w) (t_zub exs_r) && veqb (t_s w) (t_s exs_r) && veqb (t_slb w) (t_slb exs_r) && veqb (t_sub w) (t_sub exs_r)
+        | Err _ => false
+        end
+      | Err _ => false
+      end
+    | _ => false
+    end
+  | Err _ => false
+  end.
+Definition exs_scal_eqb (a b : scal) : bool :=
+  qeqb (sc_rho a) (sc_rho b) && qeqb (sc_delta a) (sc_delta b) && veqb (sc_s a) (sc_s b) && veqb (sc_z_inv a) (sc_z_inv b) &&
+  veqb (sc_s_lb a) (sc_s_lb b) && veqb (sc_z_lb_inv a) (sc_z_lb_inv b) && veqb (sc_s_ub a) (sc_s_ub b) && veqb (sc_z_ub_inv a) (sc_z_ub_inv b).
+Example exs_run_eq :
+  match eq_init exs_d (exs_q 1) (exs_q 1) None with
+  | Ok k0 => match eq_update_scalings exs_d k0 (exs_q 10) (exs_q 7) [exs_q 3; exs_q 2] [exs_q 2] [exs_q 5; exs_q 7] [exs_q 4; exs_q 5] [exs_q 3] [exs_q 2; exs_q 6] with
+             | Ok k => exs_scal_eqb (ek_sc k) exs_c && exs_check (ek_sc k) (sv_K (eq_view exs_d k)) (ek_pinv k) MEq
+             | Err _ => false end
+  | Err _ => false
+  end = true.
+Proof. vm_compute. reflexivity. Qed.
+Example exs_run_ineq :
+  match ineq_init exs_d (exs_q 1) (exs_q 1) None with
+  | Ok k0 => match ineq_update_scalings exs_d k0 (exs_q 10) (exs_q 7) [exs_q 3; exs_q 2] [exs_q 2] [exs_q 5; exs_q 7] [exs_q 4; exs_q 5] [exs_q 3] [exs_q 2; exs_q 6] with
+             | Ok k => exs_scal_eqb (ek_sc k) exs_c && exs_check (ek_sc k) (sv_K (ineq_view exs_d k)) (ek_pinv k) MIneq
+             | Err _ => false end
+  | Err _ => false
+  end = true.
+Proof. vm_compute. reflexivity. Qed.
+Example exs_run_all :
+  match all_init exs_d (exs_q 1) (exs_q 1) None with
+  | Ok k0 => match all_update_scalings exs_d k0 (exs_q 10) (exs_q 7) [exs_q 3; exs_q 2] [exs_q 2] [exs_q 5; exs_q 7] [exs_q 4; exs_q 5] [exs_q 3] [exs_q 2; exs_q 6] with
+             | Ok k => exs_scal_eqb (ak_sc k) exs_c && exs_check (ak_sc k) (sv_K (all_view exs_d k)) (ak_pinv k) MAll
+             | Err _ => false end
+  | Err _ => false
+  end = true.
+Proof. vm_compute. reflexivity. Qed.
+(* ... and KKT_FULL under a non-trivial ordering (3, 1, 4, 0, 5, 2) *)
+Example exs_run_full_perm :
+  match init exs_d (exs_q 1) (exs_q 1) (Some [3; 1; 4; 0; 5; 2]%nat) with
+  | Ok k0 => match update_scalings exs_d k0 (exs_q 10) (exs_q 7) [exs_q 3; exs_q 2] [exs_q 2] [exs_q 5; exs_q 7] [exs_q 4; exs_q 5] [exs_q 3] [exs_q 2; exs_q 6] with
+             | Ok k =>
+               nodup_colsb (fk_PKPt exs_d k) &&
+               match kkt_symbolic (fk_PKPt exs_d k) with
+               | Ok st0 => match kkt_factorize (fk_PKPt exs_d k) st0 with
+                 | Ok (true, st) => match kkt_solve MFull exs_d (scal_of k) (mkord [3; 1; 4; 0; 5; 2]%nat (fk_pinv k)) st exs_r with
+                   | Ok v => match kkt_multiply exs_d (scal_of k) v with
+                             | Ok w => veqb (t_x w) (t_x exs_r) && veqb (t_y w) (t_y exs_r) && veqb (t_z w) (t_z exs_r) && veqb (t_zlb w) (t_zlb exs_r) &&
+                                       veqb (t_zub w) (t_zub exs_r) && veqb (t_s w) (t_s exs_r) && veqb (t_slb w) (t_slb exs_r) && veqb (t_sub w) (t_sub exs_r)
+                             | Err _ => false end
+                   | Err _ => false end
+                 | _ => false end
+               | Err _ => false end
+             | Err _ => false end
+  | Err _ => false
+  end = true.
+Proof. vm_compute. reflexivity. Qed.
+(* re-factorisation: factorise, change the scalings (same pattern), factorise again on the carried LDL object, solve: exact *)
+Example exs_run_refactor :
+  match init exs_d (exs_q 1) (exs_q 1) None with
+  | Ok k0 =>
+    match kkt_symbolic (fk_PKPt exs_d k0) with
+    | Ok st0 =>
+      match kkt_factorize (fk_PKPt exs_d k0) st0 with
+      | Ok (true, st1) =>
+        match update_scalings exs_d k0 (exs_q 10) (exs_q 7) [exs_q 3; exs_q 2] [exs_q 2] [exs_q 5; exs_q 7] [exs_q 4; exs_q 5] [exs_q 3] [exs_q 2; exs_q 6] with
+        | Ok k =>
+          match kkt_factorize (fk_PKPt exs_d k) st1 with
+          | Ok (true, st2) =>
+            match kkt_solve MFull exs_d (scal_of k) (mkord (seq 0 6) (fk_pinv k)) st2 exs_r with
+            | Ok v => match kkt_multiply exs_d (scal_of k) v with
+                      | Ok w => veqb (t_x w) (t_x exs_r) && veqb (t_y w) (t_y exs_r) && veqb (t_z w) (t_z exs_r) && veqb (t_zlb w) (t_zlb exs_r) &&
+                                veqb (t_zub w) (t_zub exs_r) && veqb (t_s w) (t_s exs_r) && veqb (t_slb w) (t_slb exs_r) && veqb (t_sub w) (t_sub exs_r)
+                      | Err _ => false end
+            | Err _ => false end
+          | _ => false end
+        | Err _ => false end
+      | _ => false end
+    | Err _ => false end
   | Err _ => false
   end = true.
 Proof. vm_compute. reflexivity. Qed.
